@@ -14,6 +14,7 @@
 From Coq Require Import ZArith List Bool Arith.
 Require Import DS.Model.GCRaceBase DS.Gen.GenGCRace DS.Model.GCRace DS.Proofs.GCRaceProofs.
 Require Import DS.Gen.GenTxMarkers DS.Model.TxMarkers DS.Proofs.TxMarkersProofs.
+Require Import DS.Model.GCRaceDrop DS.Proofs.GCRaceDropProofs.
 Import ListNotations.
 Open Scope Z_scope.
 
@@ -87,6 +88,17 @@ Theorem C06_dropping_retry_refuted : forall k f, k_retry_drops k = true ->
   x_phase s = XFlipped /\ In f (x_published s) /\ In f (x_bare s) /\ ~ In f (x_markers s).
 Proof. exact dropping_retry_refuted. Qed.
 Print Assumptions C06_dropping_retry_refuted.
+
+(* What a bare file costs, on the collector x transactions machine: with a transaction step that drops the marker of a
+   file it still publishes (Model/GCRaceDrop.v: `gstep` otherwise), a pre-built file ten hours old, adopted, whose
+   marker the lost attempt drops, is deleted by a collection run of 4 ms (grace period 1 h) between the conflict and
+   the retry's flip, and the committed table references a deleted file.  No marker was treated as abandoned. *)
+Theorem C06_dropped_marker_loses_file :
+  exists evs w, grun_strict_dropping (ginit []) evs = Some w
+    /\ g_swept w 0%nat = false /\ g_ref w 0%nat = true /\ g_present w 0%nat = false /\ g_deleted w = [0%nat]
+    /\ g_now w - g_start w < 3600000.
+Proof. exact dropped_marker_loses_file. Qed.
+Print Assumptions C06_dropped_marker_loses_file.
 
 (* The regenerated decision kernels, as the invariant uses them (for all inputs). *)
 Theorem C06_marker_kernel : forall now timeout mt,
